@@ -311,6 +311,8 @@ class Host:
                     seen.add(n)
                     items.append((n, self.vals.mk(v)))
             eng.update(o, items)
+        elif k == 'update_bad' and op.get('nm'):
+            eng.update_notmapping(o)        # an argument that is no mapping: the call fails as a whole, nothing else happens
         elif k == 'update_bad':
             items, seen = [], set()
             for p, v in op['items']:
@@ -404,6 +406,9 @@ class ModelEngine:
 
     def raise_set(self, oid, name, value, queued):
         self.m.set(oid, name, value)
+        raise ModelReject()
+
+    def update_notmapping(self, oid):
         raise ModelReject()
 
     def trigger_bad(self, oid, names, at):
@@ -516,6 +521,9 @@ class RealEngine:
             self.cbs[wid] = (cb_args, False)
             w.handle = o.param.watch(cb_args, list(params), what=what, onlychanged=spec['oc'], queued=spec['q'], precedence=spec['prec'])
         return w
+
+    def update_notmapping(self, oid):
+        self.objs[oid].param.update(5)
 
     def trigger_bad(self, oid, names, at):
         names = list(names)
@@ -754,7 +762,7 @@ class DispatchWorld:
         trig_in_batch_ok = 'trigger_in_batch' not in avoid
         for _ in range(n_ops):
             o = rng.randrange(nobj)
-            table = [('set', 8), ('same', 3), ('update', 3), ('update_bad', 1 if cfg['ctx'] else 0), ('raise_set', 0 if cfg['ctx'] else 0.7),
+            table = [('set', 8), ('same', 3), ('update', 3), ('update_bad', 1 if cfg['ctx'] else 0.3), ('raise_set', 0 if cfg['ctx'] else 0.7),
                      ('trigger', 2), ('trigger_bad', 0.5), ('slot', 1 if cfg['slots'] else 0),
                      ('event', 1 if cfg['event'] else 0), ('watch', 1), ('unwatch', 1)]
             if cfg['ctx']:
@@ -776,6 +784,8 @@ class DispatchWorld:
             elif k == 'update_bad':
                 items = [[rng.randrange(cfg['n_params']), gen_value(rng, cfg['domain'])] for _ in range(rng.randint(1, 3))]
                 ops.append({'op': 'update_bad', 'o': o, 'items': items, 'at': rng.randint(0, 3)})
+                if rng.random() < 0.25:
+                    ops[-1]['nm'] = True
             elif k == 'trigger_bad':
                 ops.append({'op': 'trigger_bad', 'o': o, 'ps': [rng.randrange(cfg['n_params']) for _ in range(rng.randint(0, 2))], 'at': rng.randint(0, 2)})
             elif k == 'trigger':
